@@ -36,6 +36,21 @@ func CmpFunc(i int) func(a, b []byte) int {
 	return bytes.Compare
 }
 
+// cmpClosures: comparators handed to gkvlite are, in two cases out of three,
+// closures created by one function literal (they share their code pointer, as
+// comparators built by an application-side factory do) instead of distinct
+// top-level functions.
+var cmpClosures bool
+
+// AppCmp returns the comparator the application hands to gkvlite for index i.
+func AppCmp(i int) func(a, b []byte) int {
+	f := CmpFunc(i)
+	if !cmpClosures {
+		return f
+	}
+	return func(a, b []byte) int { return f(a, b) }
+}
+
 // MItem is the model of one stored item.
 type MItem struct {
 	Val  []byte
